@@ -21,7 +21,7 @@ EXPLANATION = (
     " (R7) sibling guard agreement: the per-type copies of the FORMAT value decoders (Int8/Int16/Int32/Float, vector and scalar) reach their `push(None)` sites under the same edge-dominance guard signature."
     " (R8) the async BCF writer clears its record buffer before the encoder fills it; (R9) the dictionary of strings only grows: a length-changing Vec operation on StringMap.entries is a resize on one edge only of a comparison with its own length (or with a max(len, ..) length); (R10) the VCF header writer, whose text the BCF reader numbers the dictionary from, and StringMaps::try_from(&Header), which the BCF writer numbers it with, visit INFO / FILTER / FORMAT in the same order."
     " (R11) sibling shape: the end-of-vector padding loop (0..max_len - len) of every typed sample writer is enclosed by the per-sample loop only (genuine defect F43, repaired: the genotype writer padded inside the allele loop)."
-    " (R12) genotypes keep phasing: every allele code returned by the two allele encoders, the missing allele included, lies behind a test of the phasing argument (genuine defect F45, repaired).")
+    " (R12) genotypes keep phasing: every allele code returned by the two allele encoders, the missing allele included, lies behind a test of the phasing argument (genuine defect F45, repaired). (R13) implicit first-allele phasing visits every remaining allele. (R14) array-typed lazy INFO readers build Value::Array only (F56, repaired). (R15) the int8 allele code is computed with checked arithmetic (F57, repaired).")
 ASSUMPTIONS = ["interval reasoning is dominance-based; per-sample padding and vector length logic are value-level"]
 NOT_DECIDED = ["full record equality, per-sample padding of unequal-length vectors, float bit patterns beyond the reserved-NaN constants"]
 
@@ -234,6 +234,56 @@ def run(ctx):
                           "mixed phasing (`0|1/2`) the lazy view reports the first allele phased although a later allele is unphased, and "
                           "disagrees with the eager decoder" % k13, f13.loc())
     ctx.floor("C10.R13", "implicit_first_allele_phasing implementations in noodles_bcf", n13, 1)
+
+
+    ctx.rule("C10.R14", "A7 sibling arms: a reader of an ARRAY-typed value (noodles_bcf `read_<type>_array_value`) builds only Value::Array (or "
+                        "None): a single value stored as a scalar of any width is wrapped in a one-element array, in every width arm (genuine "
+                        "defect F56, repaired: the int16 / int32 arms of read_integer_array_value returned Value::Integer)")
+    n14 = 0
+    for k14, f14 in sorted(fb.fns.items()):
+        if not f14.blocks or not re.search(r"^noodles_bcf::record::info::field::value::read_\w+_array_value$", k14):
+            continue
+        n14 += 1
+        ctx.saw_fn(f14)
+        scal = [(bi, st[2][3]) for bi, blk in enumerate(f14.blocks) if not blk.get("cu") for st in blk["s"]
+                if st[0] == "=" and st[2][0] == "agg" and st[2][1] == "adt" and st[2][2].endswith("info::field::value::Value") and st[2][3] != "Array"]
+        if scal:
+            ctx.violation("C10.R14", "C10.R14/scalar-from-array-reader/%s/%s" % (k14, scal[0][1]),
+                          "%s builds the scalar Value::%s: an array-typed INFO field that holds one value of that width reads back as a scalar "
+                          "through the lazy record (the eager decoder and the other width arms give a one-element array)" % (k14, scal[0][1]), f14.loc(scal[0][0]))
+        else:
+            ctx.ok("C10.R14", k14, "builds Value::Array only", f14.loc())
+    ctx.floor("C10.R14", "array-typed lazy INFO value readers", n14, 3)
+
+
+    ctx.rule("C10.R15", "A4 the int8 genotype code (allele + 1) * 2 | phase is computed with CHECKED arithmetic in both allele encoders: no plain "
+                        "i8 addition / shift / multiplication (int8 holds allele indices up to 62; index 127 panicked in debug builds and was "
+                        "written as a missing allele in release builds: genuine defect F57, repaired)")
+    n15 = 0
+    for k15, f15 in sorted(fb.fns.items()):
+        if not re.search(r"encoder::samples::values::encode_genotype(_str)?::encode$", k15) or not f15.blocks:
+            continue
+        n15 += 1
+        ctx.saw_fn(f15)
+        raw = []
+        for bi, blk in enumerate(f15.blocks):
+            if blk.get("cu"):
+                continue
+            for st in blk["s"]:
+                if st[0] == "=" and st[2][0] == "bin" and st[2][1] in ("Add", "AddWithOverflow", "AddUnchecked", "Shl", "ShlUnchecked", "Mul", "MulWithOverflow"):
+                    tys = [f15.locals[C.op_local(o)] for o in (st[2][2], st[2][3]) if C.op_local(o) is not None]
+                    if any(t == "i8" for t in tys[:1]) or (C.op_const(st[2][2]) or {}).get("ty") == "i8":
+                        raw.append((bi, st[2][1]))
+        checked = [b for b, c in f15.calls() if re.search(r"<impl i8>::checked_(add|mul|shl)$|num::<impl i8>::checked_(add|mul|shl)$", c.get("f") or "")]
+        if raw:
+            ctx.violation("C10.R15", "C10.R15/unchecked-allele-code/" + k15,
+                          "%s computes the int8 genotype code with a plain %s on i8: an allele index above 62 wraps into the missing / reserved "
+                          "codes (or panics in a debug build) instead of being refused" % (k15, raw[0][1]), f15.loc(raw[0][0]))
+        elif not checked:
+            ctx.violation("C10.R15", "C10.R15/ANCHOR-MISSING/%s/checked" % k15, "%s: neither plain nor checked i8 arithmetic found" % k15, f15.loc())
+        else:
+            ctx.ok("C10.R15", k15, "allele code through checked_add / checked_mul", f15.loc(checked[0]))
+    ctx.floor("C10.R15", "allele encoders", n15, 2)
 
     ctx.rule("C10.R4", "string-map lookups on decode are error exits on a missing index")
     n = 0
